@@ -1,7 +1,9 @@
 // crate: kolibrie
 // BOUNDED stand-in for the union clause of C15: the union of two independently built databases denotes exactly the
 // union of their datasets (quads compared lexically incl. quoted-triple terms, graph identities, probability seeds),
-// for every pair of databases built from <= 2 of 5 fixed statements in either insertion order (identifiers clash).
+// for every pair of databases built from <= 2 of 7 fixed statements in either insertion order (identifiers clash;
+// statements 3, 5 and 6 intern the same vocabulary in the same order and then quote DIFFERENT triples, so the two
+// sides use the same quoted-triple identifier for different terms).
 use kolibrie::sparql_database::SparqlDatabase;
 use shared::dataset_index::{GraphId, Quad};
 use shared::triple::Triple;
@@ -28,6 +30,15 @@ fn build(stmts: &[usize]) -> SparqlDatabase {
                 let g = db.dictionary.write().unwrap().encode("http://e/empty");
                 db.dataset_index.create_graph(GraphId::Named(g));
             }
+            5 | 6 => { // same vocabulary interned in the same order as statement 3 - but ANOTHER quoted triple (6: a nested one)
+                let (a, p, b, says, who) = { let mut d = db.dictionary.write().unwrap(); (d.encode("http://e/a"), d.encode("http://e/p"), d.encode("http://e/b"), d.encode("http://e/says"), d.encode("http://e/w")) };
+                let qt = if *s == 5 { db.quoted_triple_store.write().unwrap().encode(b, p, a) } else {
+                    let mut store = db.quoted_triple_store.write().unwrap();
+                    let inner = store.encode(a, says, b);
+                    store.encode(inner, p, a)
+                };
+                db.dataset_index.insert_quad(&Quad { subject: qt, predicate: says, object: who, graph: GraphId::Default });
+            }
             _ => unreachable!(),
         }
     }
@@ -46,7 +57,7 @@ fn seeds(db: &SparqlDatabase) -> BTreeMap<(String, String, String), String> {
 
 #[test] fn w__union__denotes_the_union_of_the_datasets() {
     let mut configs: Vec<Vec<usize>> = vec![vec![]];
-    for a in 0..5 { configs.push(vec![a]); for b in 0..5 { if a != b { configs.push(vec![a, b]); } } }
+    for a in 0..7 { configs.push(vec![a]); for b in 0..7 { if a != b { configs.push(vec![a, b]); } } }
     for x in &configs { for y in &configs {
         let mut a = build(x);
         let b = build(y);
@@ -59,3 +70,5 @@ fn seeds(db: &SparqlDatabase) -> BTreeMap<(String, String, String), String> {
         assert!(seeds(&u) == want_s, "a=statements{:?} b=statements{:?}: union has probability seeds {:?}, expected {:?}", x, y, seeds(&u), want_s);
     }}
 }
+// alias so that a failed obligation of unit reencode finds its concrete input here
+#[test] fn w__reencode_term_id__any() { w__union__denotes_the_union_of_the_datasets(); }
